@@ -75,6 +75,15 @@ class Check:
         rc, out, err, dt = sh(cmd, cwd=LEAN, timeout=3600)
         self.checker_cmds.append("cd /verif/lean && " + " ".join(cmd))
         self.coverage["lean_build_s"] = round(dt, 1)
+        if rc == 0 and self.tier == "thorough" and modules:
+            # thorough tier: the compiled theorem modules are re-checked by leanchecker, the toolchain's independent
+            # re-checker of .olean files (declarations replayed into a fresh kernel environment)
+            rc2, out2, err2, dt2 = sh(["lake", "env", "leanchecker"] + modules, cwd=LEAN, timeout=3600)
+            self.checker_cmds.append("cd /verif/lean && lake env leanchecker " + " ".join(modules))
+            self.coverage["leanchecker_s"] = round(dt2, 1)
+            self.coverage["leanchecker_ok"] = rc2 == 0
+            if rc2 != 0:
+                return False, out + err + "\nleanchecker: " + out2 + err2
         return rc == 0, out + err
 
     def audit_lean(self, audit_file, src_globs=None):
